@@ -174,7 +174,7 @@ def kl_pairs(tier):
                 out.append([list(p), list(q)])
     if tier == "thorough":
         allc = comps(8, 3) + comps(6, 3) + comps(16, 2) + comps(12, 2)
-        out += [[list(p), list(q)] for p in allc for q in allc]
+        out += [[list(p), list(q)] for p in allc for q in allc if len(p) == len(q)]     # (same support size)
     return out
 
 
